@@ -51,6 +51,7 @@ type FuncContract struct {
 	Flags     map[string]bool // pure, trusted, wrap64, maypanic, noinline, opaque, frame
 	Asserts   []AnchorAssert
 	FnSpecs   map[string]*FuncContract // param name -> contract of function-typed param
+	Structure []string                 // structural obligations: "recover-first", "defers <callee> after <callee>"
 	GhostClrs []MarkSpec               // `ghostclear @<anchor> name`
 	GhostSets []MarkSpec               // `ghostset @call:<glob> name`: ghost flag name becomes true after a matching call
 	Marks     []MarkSpec               // named program points (state snapshots) usable as at("label", e)
@@ -398,6 +399,11 @@ func (cs *ContractSet) LoadContractFile(path, pkgPath string, repoStyle bool) er
 			} else {
 				cur.GhostClrs = append(cur.GhostClrs, MarkSpec{Glob: a, Label: label})
 			}
+		case "structure":
+			if cur == nil {
+				return fail(fmt.Errorf("structure outside func"))
+			}
+			cur.Structure = append(cur.Structure, strings.TrimSpace(rest))
 		case "mark":
 			if cur == nil {
 				return fail(fmt.Errorf("mark outside func"))
